@@ -343,6 +343,7 @@ def c03(tier, seed):
     scs = canvas_gen("C03", v, "frame", 2, 28 if th else 10, salt=seed + 3)
     scs += canvas_gen("C03", v, "frame", 3, 4, draws=2, simulate=4000 if th else 600, depth=6, seed=seed, salt=seed + 3)
     scs += canvas_gen("C03", v, "layer", 3, 3, simulate=2000 if th else 300, depth=6, seed=seed + 1, salt=seed + 3)
+    scs += canvas_gen("C03", v, "layerclip", 3, 4 if th else 1, salt=seed + 4)
     v.exhaustive = True
     canvas_validate("C03", v, scs, "all", {"C03"})
     v.samples = [scs[0], scs[-1]]
@@ -442,7 +443,8 @@ def c06(tier, seed):
               "Composite(blend, layer pixel, previous, opacity, clip); the visible surface must not change while a layer is open; depths and "
               "transform are compared after every call; non-trivial = the surface changed")
     v.trusted = ["harness interpreter and shadow targets (harness/src/canvas.rs)", "Pixel.tla", "Coverage.tla"]
-    scs = canvas_gen("C06", v, "layer", 2, 10 if th else 4, salt=seed)
+    scs = canvas_gen("C06", v, "layer", 2, 10 if th else 3, salt=seed)
+    scs += canvas_gen("C06", v, "layerclip", 3, 6 if th else 2, salt=seed + 1)
     scs += canvas_gen("C06", v, "layer", 5, 3, draws=3, simulate=5000 if th else 900, depth=10, seed=seed, salt=seed)
     v.exhaustive = True
     canvas_validate("C06", v, scs, "all", {"C03", "C06L", "C06D", "C11T", "C02", "C02N", "C07"},
@@ -479,6 +481,17 @@ def selfcheck(pid, v, seed, n):
         raise ToolError("Pixel.tla disagrees with sw-composite on %d tuples, e.g. %s" % (len(diffs), diffs[0]))
     v.extra["spec_selfcheck_tuples"] = len(scs)
     return t
+
+
+def extra_scenarios(pid):
+    """Counterexample inputs of design-level (I => P) runs and other regression scenarios kept under
+    findings/<pid>-*.ndjson: executed on the real code on every run."""
+    out = []
+    d = os.path.join(core.VERIF, "findings")
+    for f in sorted(os.listdir(d)):
+        if f.startswith(pid + "-") and f.endswith(".ndjson"):
+            out += read_ndjson(os.path.join(d, f))
+    return out
 
 
 def known_scenarios(pid, fam=None):
@@ -683,7 +696,15 @@ def c09(tier, seed):
               "positive entries (odd lengths, entries longer than the whole path) and offsets of both signs and beyond the period, "
               "widths 2-6, all caps and joins, transforms; non-trivial = at least two dash pieces and both must-paint and must-not-paint pixels")
     v.trusted = ["harness render (harness/src/strokefam.rs)", "Dash.tla/Stroke.tla integer geometry (1/64 px, rounding bound added to the margin)"]
-    scs = []
+    # design level: the dasher machine (DashImpl.tla, as repaired) emits exactly the pieces of the
+    # arc-length semantics for every small path / dash array / offset
+    r = run_tlc("C09", "MC_Dash", env={"MAXL": 4 if th else 3, "MAXSEG": 3 if th else 2, "ARR3": 1, "OFFR": 6 if th else 4}, workers=12, timeout=2400)
+    v.add_tlc(r)
+    r2 = run_tlc("C09", "MC_Dash", env={"TWO": 1, "MAXL": 3, "MAXSEG": 2, "OFFR": 3 if th else 2, "ARR3": 1 if th else 0}, workers=12, timeout=2400)
+    v.add_tlc(r2)
+    v.extra["ip_refinement"] = ("MC_Dash: DashImpl.tla (DashState, is_first_segment, first_dash, initial_segment, flush on MoveTo/end, Close branch) "
+                                "refines the arc-length pieces on %d + %d states (one and two subpaths)" % (r.distinct, r2.distinct))
+    scs = extra_scenarios("C09")
     for fam, nseg, sim in ((5, 2, None), (13, 2, None), (5, 3, 250 if not th else 1500), (13, 3, 100 if not th else 600)):
         env = {"FAMILY": fam, "NSEG": nseg, "NSUB": 1, "NVAR": 2 if th else 1, "SALT": seed + 5, "DASH": 1}
         if sim:
